@@ -208,6 +208,29 @@ extern "C" int monitor()
   return 0;
 }
 
+// ------------------------------------------------------------------------------------------------ Thread: join returns the started function's result
+static volatile uint32 g_ranA, g_ranB;
+struct RunA { uint run() { Atomic::increment(g_ranA); return 1; } };
+struct RunB { uint run() { Atomic::increment(g_ranB); return 2; } };
+extern "C" int thread_restart()
+{
+  {
+    g_ranA = g_ranB = 0;
+    Thread t; RunA a; RunB b;
+    vf_assert(t.start(a, &RunA::run), "start");
+    bool second = t.start(b, &RunB::run);                  // refused: the thread is already running (or finished, not yet joined)
+    vf_assert(!second, "a started thread cannot be started again before join");
+    uint r = t.join();
+    vf_assert(g_ranA == 1 && g_ranB == 0, "the refused second start does not change what the thread runs");
+    vf_assert(r == 1, "join returns the thread function's result");
+    // after join the object can be reused
+    vf_assert(t.start(b, &RunB::run), "restart after join");
+    vf_assert(t.join() == 2 && g_ranB == 1, "join returns the second function's result");
+  }
+  vf_reach("end");
+  return 0;
+}
+
 // ------------------------------------------------------------------------------------------------ deadline arithmetic, all time-outs
 extern "C" int deadlines()
 {
